@@ -17,6 +17,20 @@
 #define VERIF_ASSUMED_BPPP_H
 #include "assumed.h"
 
+/* ---- memset with a symbolic length (scratch_alloc, generators_serialize): CBMC's built-in model costs
+ * minutes on a symbolic-size object; replaced by a contract in the style of the memcpy contract of
+ * DESIGN 2.4: the requires clause IS the bounds obligation at every call site, the frame is the exact
+ * byte range, content is stated through a ghost index the code never assigns. ---- */
+#ifdef BP_MEMSET
+size_t g_ms_idx;
+void *memset(void *s, int c, size_t n)
+__CPROVER_requires(n == 0 || __CPROVER_w_ok(s, n))
+__CPROVER_assigns(__CPROVER_object_upto(s, n))
+__CPROVER_ensures(__CPROVER_return_value == s)
+__CPROVER_ensures(g_ms_idx < n ==> ((unsigned char *)s)[g_ms_idx] == (unsigned char)c)
+;
+#endif
+
 /* ---- lift x to a curve point (square root inside): oracle ---- */
 #ifdef BP_SET_XQUAD
 static int secp256k1_ge_set_xquad(secp256k1_ge *r, const secp256k1_fe *x)
@@ -71,14 +85,14 @@ __CPROVER_ensures(__CPROVER_return_value == 0 || __CPROVER_return_value == 1)
  * for non-NULL arguments; `valid generator` = both 32-byte halves are canonical field elements ---- */
 #ifdef BP_GENERATOR_PARSE
 int secp256k1_generator_parse(const secp256k1_context *ctx, secp256k1_generator *gen, const unsigned char *input)
-__CPROVER_requires(__CPROVER_r_ok(ctx, sizeof(*ctx)) && __CPROVER_w_ok(gen, sizeof(*gen)) && __CPROVER_r_ok(input, 33))
+__CPROVER_requires(ctx != NULL && __CPROVER_w_ok(gen, sizeof(*gen)) && __CPROVER_r_ok(input, 33))
 __CPROVER_assigns(*gen)
 __CPROVER_ensures(__CPROVER_return_value == 0 || __CPROVER_return_value == 1)
 ;
 #endif
 #ifdef BP_GENERATOR_SERIALIZE
 int secp256k1_generator_serialize(const secp256k1_context *ctx, unsigned char *output, const secp256k1_generator *gen)
-__CPROVER_requires(__CPROVER_r_ok(ctx, sizeof(*ctx)) && __CPROVER_w_ok(output, 33) && __CPROVER_r_ok(gen, sizeof(*gen)))
+__CPROVER_requires(ctx != NULL && __CPROVER_w_ok(output, 33) && __CPROVER_r_ok(gen, sizeof(*gen)))
 __CPROVER_assigns(__CPROVER_object_upto(output, 33))
 __CPROVER_ensures(__CPROVER_return_value == 1)
 ;
